@@ -78,15 +78,16 @@ BatteryFamily ==
         \A D \in Small(BlackBattery, 3) :
           Emit(A \cup D \cup {<<27, Bl(vk)>>, <<7, W(King)>>, <<48, Bl(King)>>})
 
-\* MODE "stack": very long exchanges - up to ten white and ten black men (promoted pieces included) bear on one pawn:
-\* file batteries from both sides, four knights each, bishops, a queen beside the target.  The men are added in a fixed
-\* order; every pair of prefix lengths from four on gives one position (exchanges of up to twenty captures).
+\* MODE "stack": very long exchanges - up to nine white and nine black men (promoted pieces included) bear on one pawn:
+\* file batteries from both sides, two knights and two bishops each, rooks on the target's rank (one behind a queen).
+\* Few men of equal value attack at the same time (the oracle branches over every order of those).  The men are added
+\* in a fixed order; every pair of prefix lengths from six on gives one position (exchanges of up to eighteen captures).
 WhiteStack == << <<27, W(Rook)>>, <<19, W(Rook)>>, <<11, W(Queen)>>, <<3, W(Queen)>>, <<18, W(Knight)>>, <<20, W(Knight)>>,
-                 <<25, W(Knight)>>, <<29, W(Knight)>>, <<28, W(Bishop)>>, <<17, W(Bishop)>> >>
-BlackStack == << <<43, Bl(Rook)>>, <<51, Bl(Rook)>>, <<59, Bl(Queen)>>, <<41, Bl(Knight)>>, <<45, Bl(Knight)>>, <<52, Bl(Knight)>>,
-                 <<50, Bl(Knight)>>, <<42, Bl(Bishop)>>, <<44, Bl(Bishop)>>, <<36, Bl(Queen)>> >>
+                 <<28, W(Bishop)>>, <<17, W(Bishop)>>, <<32, W(Rook)>> >>
+BlackStack == << <<43, Bl(Rook)>>, <<51, Bl(Rook)>>, <<59, Bl(Queen)>>, <<41, Bl(Knight)>>, <<45, Bl(Knight)>>,
+                 <<42, Bl(Bishop)>>, <<44, Bl(Bishop)>>, <<36, Bl(Queen)>>, <<39, Bl(Rook)>> >>
 StackFamily ==
-    \A i \in 4..10 : \A j \in 4..10 :
+    \A i \in 6..9 : \A j \in 6..9 :
         (i + j) % NSHARDS = SHARD =>
             Emit({WhiteStack[k] : k \in 1..i} \cup {BlackStack[k] : k \in 1..j} \cup {<<35, Bl(Pawn)>>, <<7, W(King)>>, <<63, Bl(King)>>})
 
